@@ -397,6 +397,35 @@ static void pool_cxx_big_target(Src &s, Case &c)
     PoolCxx a(zone.p, cap, el);
     pool_history(s, c, a, "pool_cxx");
 }
+// The same pool object initialised a second time (igris::pool::init on a used pool: new zone, new cell size, new
+// capacity) and run through a second complete history: nothing of the first configuration may survive.
+static void pool_cxx_reinit_target(Src &s, Case &c)
+{
+    size_t el = pick_elemsz(s), cap = (size_t)s.range(1, 16);
+    Exact zone(el * cap);
+    memset(zone.p, 0xA5, el * cap);
+    PoolCxx a(zone.p, cap, el);
+    // first life: a few gets and puts, ending with 0..cap cells still handed out
+    size_t take = (size_t)s.below(cap + 1), back = (size_t)s.below(take + 1);
+    std::vector<void *> got;
+    for (size_t i = 0; i < take; i++)
+        got.push_back(a.pl.get());
+    for (size_t i = 0; i < back; i++)
+        a.pl.put(got[i]);
+    c.log("first life: elemsz=%zu cap=%zu, %zu taken, %zu returned; then init() over a new zone: ", el, cap, take, back);
+    size_t el2 = pick_elemsz(s), cap2 = (size_t)s.range(1, 16);
+    Exact zone2(el2 * cap2);
+    memset(zone2.p, 0xA5, el2 * cap2);
+    a.pl.init(zone2.p, cap2 * el2, el2);
+    a.zone = zone2.p;
+    a.cap = cap2;
+    a.elemsz = el2;
+    c.label(back < take ? "reinit_with_cells_out" : take ? "reinit_after_use" : "reinit_unused");
+    pool_history(s, c, a, "pool_cxx");
+}
+VP_TARGET("pool_cxx_reinit", pool_cxx_reinit_target,
+          "igris::pool used (0..capacity cells taken, some returned), then init() again over a new exactly-sized zone with another cell size and "
+          "capacity, then the full pool_cxx history and checks against the new configuration (capacity before null, cells inside the new zone, free count)");
 VP_TARGET("pool_cxx_big", pool_cxx_big_target, "igris::pool with capacity 250..262, 33..300 or 508..516: same history and checks as pool_cxx");
 
 // ------------------------------------------------------------ object_pool
